@@ -32,6 +32,7 @@ type FnVector struct {
 	// defaults
 	Spec map[string]string `json:"spec"`
 	Mode string            `json:"mode"`
+	Store string           `json:"store"` // nodes | nomatch | empty: the nodes of the store the reconcilers run on
 	// metrics
 	Kind   string         `json:"kind"`
 	Status map[string]int `json:"status"`
@@ -211,6 +212,9 @@ func BuildSpecFromLattice(c *Cluster, f map[string]string) edsv1.ExtendedDaemonS
 		if f["cSelector"] == "present" {
 			cn.NodeSelector = &metav1.LabelSelector{MatchLabels: map[string]string{CanaryNodeLabel: "yes"}}
 		}
+		if f["cAntiAffinity"] == "present" {
+			cn.NodeAntiAffinityKeys = []string{ZoneLabel}
+		}
 		if f["autoPause"] == "present" {
 			cn.AutoPause = &edsv1.ExtendedDaemonSetSpecStrategyCanaryAutoPause{Enabled: bptr(f["apEnabled"]), MaxRestarts: i32(f["apMaxRestarts"]), MaxSlowStartDuration: dur(f["apMaxSlowStart"])}
 		}
@@ -352,8 +356,10 @@ func fnDefaults(v *FnVector) map[string]interface{} {
 			panics++
 		}
 	}
-	for _, n := range []string{"n1", "n2"} {
-		_ = c.NodeAdd(n, []string{"A", "B"}, true, "z1")
+	if v.Store != "empty" {
+		for _, n := range []string{"n1", "n2"} {
+			_ = c.NodeAdd(n, []string{"A", "B"}, v.Store != "nomatch", "z1")
+		}
 	}
 	obj := &edsv1.ExtendedDaemonSet{ObjectMeta: metav1.ObjectMeta{Namespace: "ns1", Name: "foo", UID: "eds-uid", CreationTimestamp: nowT()}, Spec: *in}
 	if err := c.base.Create(bg, obj); err == nil {
